@@ -101,6 +101,35 @@ class GenFacts:
             raise AnalysisError(f'{name}: entry {nm} is neither an asm nor an ast class')
         return {text(k): text(v) for k, v in val.items()}
 
+    def layout(self, variable_defeat=True):
+        """The lines CodeGen.gen_lines writes for a small synthetic compilation state (two entry arguments, two state
+        and two const data items, two strings, two generated functions), obtained by interpreting gen_lines - the
+        method only formats state, whatever helpers it is split into.  Returns the list of bytes lines."""
+        cache = self.repo.__dict__.setdefault('_layout', {})
+        if variable_defeat not in cache:
+            ns = self.module_ns()
+            CG, asm = ns.get('CodeGen'), ns.get('asm')
+            L, IL = asm.LabelRef, asm.IntLiteral
+            try:
+                g = object.__new__(CG)
+                g.argv_specs = [b'x word']
+                g.word_size = 2
+                g.stack_size = 7
+                g.entry_args = [asm.WordDirective(IL(101)), asm.WordDirective(IL(102))]
+                g.state_data = {L('s_b'): asm.ByteDirective(IL(5)), L('s_a'): asm.WordDirective(IL(9), IL(8))}
+                g.needs_variable_defeat = variable_defeat
+                g.string_labels = {b'zz': L('str_0'), b'a': L('str_1')}
+                g.const_data = {L('c_z'): asm.WordDirective(IL(3)), L('c_a'): asm.ZeroDirective(IL(4))}
+                g.func_table = {'f': [asm.Label(L('func_f')), asm.Halt()], 'g': [asm.Label(L('func_g')), asm.Jump(L('x'))]}
+                res = g.gen_lines()
+                lines = [bytes(x) for x in (res.items if hasattr(res, 'items') else res)]
+            except AnalysisError:
+                raise
+            except Exception as e:      # noqa: BLE001
+                raise AnalysisError(f'cannot interpret CodeGen.gen_lines: {type(e).__name__}: {e}')
+            cache[variable_defeat] = lines
+        return cache[variable_defeat]
+
     def module_ns(self):
         """Namespace of generator.py, interpreted (never imported); cached per repository."""
         cache = self.repo.__dict__.setdefault('_gen_ns', {})
@@ -218,8 +247,10 @@ class GenFacts:
         if name not in self._inlined:
             out = []
             helpers = {k: v for k, v in self.helpers().items() if k != f'self.{name}'}
+            # code that was moved into a new helper (a fragment) counts as code of the function it is spliced into
+            transparent = {f'self.{h}' for h in self.fragments()}
             for p in self.paths(name):
-                variants = efg.inline(p.events, helpers)
+                variants = efg.inline(p.events, helpers, transparent=transparent)
                 for evs in variants:
                     out.append((p, [self._norm(e) for e in evs if not self._boring(e)]))
             self._inlined[name] = out
